@@ -45,3 +45,11 @@ def native_replay(rep):
     if bad is None:
         return {"confirmed": False, "observed": f"no raise / confinement breach among {n} forbidden and hostile inputs"}
     return {"confirmed": True, "observed": bad, "found_by": f"bounded corpus ({n} cases)"}
+
+
+# ---------------------------------------------------------------- pathway auto-detection is total (it runs OUTSIDE metabolize's try block)
+# the metabolize contract above uses _detect_pathway as a collaborator that always returns; this is that collaborator's own obligation
+shape("MitochondriaD", tools="dict:str,any")
+contract(T + "._detect_pathway", "C01", self_type="MitochondriaD", raises=[],
+         loops={"for tool_name in self.tools": {"invariant": ["True"]}},
+         ensures={})
